@@ -31,7 +31,7 @@ import itertools
 
 from ..core import AnalysisError
 from ..index import get_index
-from ..ointerp import Interp, Native, Obj, PyExc, native
+from ..ointerp import FuncRef, Interp, Native, Obj, PyExc, native
 
 LEVEL = 'other'
 DESIGN_REF = 'DESIGN.md#c12'
@@ -429,3 +429,291 @@ def run(chk):
     chk.assume('the resolvers compare spans only through start / end / length (checked implicitly: anything else is outside the '
                'interpreted subset and fails closed); sub-extractor results entering add_to are pairwise disjoint per extractor '
                '(merge_all_tokens, decided above)')
+
+
+# ---------------------------------------------------------------------------------------------------------------
+# C12.add-mod: the step that grows entities over neighbouring modifier words ("after <X>", "<X> or later").  The merged
+# extractors' add_mod (and the helpers it calls: try_merge_modifier_token, has_token_index, RegExpUtility.match_begin,
+# ConditionalMatch) is interpreted from its AST on token strings: X = an entity, lower-case letters = one word each, every
+# modifier pattern of the configuration is one of those words (the word shared by the prefix pattern "after" and the suffix
+# pattern "or after" is shared here too, as in the English resources).  Pattern objects and match objects are stubs of the
+# checker (literal search); nothing of the repository or of the regex engine runs.  Required for every string of at most N
+# tokens and EVERY order of the entity list (add_to orders it by sub-extractor, not by position): the grown spans stay
+# pairwise disjoint, each contains the span it grew from, lies inside the text, and its text is the slice it addresses.
+
+ADDMOD = {
+    'recognizers_date_time.date_time.base_merged.BaseMergedExtractor': {
+        'patterns': {'around_regex': 'r', 'before_regex': 'b', 'after_regex': 'a', 'since_regex': 's', 'equal_regex': 'q',
+                     'suffix_after_regex': ('o', 'a')},
+        'config': {'check_both_before_after': False, 'ambiguous_range_modifier_prefix': None,
+                   'potential_ambiguous_range_regex': None},
+        # (alphabet, longest string); strings over a later alphabet are only run when they use a letter the earlier ones lack
+        'quick': [(['X', 'w', 'b', 'a', 'o'], 5), (['X', 'o', 'a', 'r'], 5), (['X', 'a', 's', 'q'], 4)],
+        'thorough': [(['X', 'w', 'b', 'a', 'o'], 6), (['X', 'o', 'a', 'r', 'b'], 6), (['X', 'a', 's', 'q', 'o'], 5)], 'joiner': ' ',
+    },
+    'recognizers_date_time.date_time.chinese.merged_extractor.ChineseMergedExtractor': {
+        'patterns': {'before_regex': 'b', 'after_regex': 'a', 'until_regex': 'u', 'since_prefix_regex': 's',
+                     'since_suffix_regex': 't', 'equal_regex': 'q'},
+        'config': {},
+        'quick': [(['X', 'w', 'b', 'u', 'a'], 5), (['X', 'u', 's', 't', 'q'], 4)],
+        'thorough': [(['X', 'w', 'b', 'u', 'a'], 6), (['X', 'u', 's', 't', 'q', 'a'], 5)], 'joiner': '',
+    },
+}
+ENTITY_WORD = 'xx'
+
+
+def _lit_spans(words, text, joiner):
+    """occurrences of the word sequence `words` in text (words separated by optional blanks): [(start, end)]"""
+    out = []
+    first = words[0]
+    i = text.find(first)
+    while i >= 0:
+        j, ok = i + len(first), True
+        for w in words[1:]:
+            k = j
+            while k < len(text) and text[k] == ' ':
+                k += 1
+            if text.startswith(w, k) and (k > j or joiner == ''):
+                j = k + len(w)
+            else:
+                ok = False
+                break
+        if ok:
+            out.append((i, j))
+        i = text.find(first, i + 1)
+    return out
+
+
+def _stub_match(text, s, e):
+    tbl = {'start': native(lambda it, a, k: s), 'end': native(lambda it, a, k: e),
+           'group': native(lambda it, a, k: text[s:e]), 'span': native(lambda it, a, k: (s, e)), 'string': text}
+    return Native(tbl, 'match[%d:%d]' % (s, e))
+
+
+def _stub_pattern(words, joiner):
+    words = (words * 2,) if isinstance(words, str) else tuple(w * 2 for w in words)
+
+    def finditer(it, a, k):
+        text = a[0]
+        if not isinstance(text, str):
+            raise PyExc('TypeError: expected string')
+        out, last = [], 0
+        for s, e in _lit_spans(words, text, joiner):
+            if s >= last:
+                out.append(_stub_match(text, s, e))
+                last = e
+        return out
+
+    def search(it, a, k):
+        r = finditer(it, a, k)
+        return r[0] if r else None
+
+    def match(it, a, k):
+        r = finditer(it, a, k)
+        return r[0] if r and r[0].table['start'](it, [], {}) == 0 else None
+    return Native({'finditer': native(finditer), 'search': native(search), 'match': native(match)}, 'pattern<%s>' % ' '.join(words))
+
+
+def _regex_hooks():
+    def via(name):
+        def h(it, args, kwargs):
+            p = args[0]
+            if not isinstance(p, Native) or name not in p.table:
+                it.fail(None, 'regex.%s on something that is not one of the stub patterns' % name)
+            return p.table[name](it, list(args[1:]), kwargs)
+        return h
+    return {'regex.finditer': via('finditer'), 'regex.search': via('search'), 'regex.match': via('match')}
+
+
+def config_regex_reads(idx, cls, entry):
+    """self.config.<attr> reads in method `entry` of cls and the same-object methods it reaches (through the MRO)"""
+    out, todo, seen = set(), [entry], set()
+    while todo:
+        nm = todo.pop()
+        if nm in seen:
+            continue
+        seen.add(nm)
+        k, fn = idx.find_method(cls, nm)
+        if fn is None:
+            continue
+        for n in ast.walk(fn):
+            if isinstance(n, ast.Attribute) and isinstance(n.value, ast.Attribute) and n.value.attr == 'config' \
+                    and isinstance(n.value.value, ast.Name) and n.value.value.id == 'self':
+                out.add(n.attr)
+            if isinstance(n, ast.Call) and isinstance(n.func, ast.Attribute) and isinstance(n.func.value, ast.Name) \
+                    and n.func.value.id == 'self':
+                todo.append(n.func.attr)
+    return out
+
+
+def addmod_run(idx, cls, spec, tokens, order, er_cls, date_type):
+    """-> (source, [(before span, after span, text)]) or ('raises', message)"""
+    joiner = spec['joiner']
+    words = [ENTITY_WORD if t == 'X' else t * 2 for t in tokens]     # two characters per word: an off-by-one growth stays visible
+    source = joiner.join(words)
+    pos, ents = 0, []
+    for t, w in zip(tokens, words):
+        if t == 'X':
+            ents.append((pos, pos + len(w) - 1))
+        pos += len(w) + len(joiner)
+    cfg = Obj(None, dict(spec['config']))
+    for attr, w in spec['patterns'].items():
+        cfg.attrs[attr] = _stub_pattern(w, joiner)
+    it = Interp(idx, hooks=_regex_hooks(), where='%s.add_mod' % cls.name, budget=400000)
+    selfo = Obj(cls, {'config': cfg, 'options': 0})
+    ers = []
+    for s, e in ents:
+        o = Obj(er_cls, {})
+        o.attrs.update({'start': s, 'length': e - s + 1, 'text': source[s:e + 1], 'type': date_type, 'data': None, 'meta_data': None})
+        ers.append(o)
+    lst = [ers[i] for i in order]
+    k, fn = idx.find_method(cls, 'add_mod')
+    try:
+        it.call_function(FuncRef(k.mod, fn, k), [lst, source], {}, None, selfobj=selfo)
+    except PyExc as ex:
+        return source, ('raises', str(ex))
+    res = []
+    for (s, e), o in zip(ents, ers):
+        s2, l2, t2 = o.attrs.get('start'), o.attrs.get('length'), o.attrs.get('text')
+        if not isinstance(s2, int) or not isinstance(l2, int) or not isinstance(t2, str):
+            raise AnalysisError('%s.add_mod leaves an entity without integer start/length and str text' % cls.name)
+        res.append(((s, e), (s2, s2 + l2 - 1), t2))
+    return source, res
+
+
+def addmod_verdict(source, res):
+    """None or (kind, text) - kinds name WHAT overlaps so that a different failure is a different instance"""
+    if res and res[0] == 'raises':
+        return 'raises', res[1]
+    for (b, a, t) in res:
+        if a[0] < 0 or a[1] >= len(source):
+            return 'outside', 'span %s outside the text' % (a,)
+        if not (a[0] <= b[0] and b[1] <= a[1]):
+            return 'shrinks', 'entity %s becomes %s' % (b, a)
+        if t != source[a[0]:a[1] + 1]:
+            return 'text', 'entity %s has text %r, its span addresses %r' % (a, t, source[a[0]:a[1] + 1])
+    for i in range(len(res)):
+        for j in range(i + 1, len(res)):
+            (b1, a1, _), (b2, a2, _) = res[i], res[j]
+            if overlap(a1, a2):
+                if overlap(a2, b1) or overlap(a1, b2):
+                    return 'swallows', 'the entity at %s grows to %s over the entity at %s' % (
+                        (b2, a2, b1) if overlap(a2, b1) else (b1, a1, b2)), (i, j)
+                return 'shared-word', 'the entities at %s and %s both grow over the same word: %s and %s' % (b1, b2, a1, a2), (i, j)
+    return None
+
+
+ADDMOD_CONTROL = '''
+def add_mod(self, extract_results, source):
+    for er in extract_results:
+        m = RegExpUtility.match_begin(self.config.after_regex, source[er.start + er.length:], True)
+        if m and m.success:
+            er.length += m.index + m.length
+            er.text = source[er.start:er.start + er.length]
+    for er in extract_results:
+        before = source[0:er.start]
+        m = RegExpUtility.match_end(self.config.after_regex, before, True)
+        if m and m.success:
+            n = len(before) - m.index
+            er.start -= n
+            er.length += n
+            er.text = source[er.start:er.start + er.length]
+'''
+
+
+def rule_add_mod(chk, idx, tier):
+    rid = 'C12.add-mod'
+    chk.rule(rid, 'growing entities over neighbouring modifier words keeps them pairwise disjoint, for every order of the '
+                  'entity list', floor=6, control=True)
+    er_cls = idx.cls('recognizers_text.extractor.ExtractResult')
+    consts = idx.cls('recognizers_date_time.date_time.constants.Constants')
+    dt = consts.attrs.get('SYS_DATETIME_DATE') if consts else None
+    if not (isinstance(dt, ast.Constant) and isinstance(dt.value, str)):
+        raise AnalysisError('anchor vanished: Constants.SYS_DATETIME_DATE')
+    date_type = dt.value
+    KINDS = ['raises', 'outside', 'shrinks', 'text', 'swallows', 'shared-word']
+    for cname, spec in ADDMOD.items():
+        cls = idx.cls(cname)
+        if cls is None or idx.find_method(cls, 'add_mod')[1] is None:
+            raise AnalysisError('anchor vanished: %s.add_mod' % cname)
+        chk.consulted(cls.mod.path)
+        reads = {a for a in config_regex_reads(idx, cls, 'add_mod') if a.endswith('_regex') or a in spec['config']}
+        unknown = sorted(a for a in reads if a not in spec['patterns'] and a not in spec['config'])
+        if unknown:
+            raise AnalysisError('%s.add_mod reads configuration attribute(s) %s the tabulation has no word for'
+                                % (cls.name, ', '.join(unknown)))
+        alphabets = spec[tier if tier in ('quick', 'thorough') else 'quick']
+        first = {}
+        runs = 0
+        seen_letters = set()
+        for alphabet, maxlen in alphabets:
+            fresh = set(alphabet) - seen_letters - {'X'}
+            for n in range(1, maxlen + 1):
+                for tokens in itertools.product(alphabet, repeat=n):
+                    nx = tokens.count('X')
+                    if nx == 0 or nx > 3 or (nx == 1 and n > 3):
+                        continue
+                    if seen_letters and not (fresh & set(tokens)):
+                        continue
+                    orders = list(itertools.permutations(range(nx)))
+                    if tier == 'quick' and nx == 3:
+                        orders = [orders[0], orders[-1]]
+                    for order in orders:
+                        source, res = addmod_run(idx, cls, spec, tokens, order, er_cls, date_type)
+                        runs += 1
+                        v = addmod_verdict(source, res)
+                        if v is None:
+                            continue
+                        gap = ''
+                        if len(v) > 2:
+                            xs = [i for i, t in enumerate(tokens) if t == 'X']
+                            gap = ' '.join(tokens[xs[v[2][0]] + 1:xs[v[2][1]]])
+                        how = 'listed in text order' if list(order) == sorted(order) else 'listed out of text order'
+                        key = (v[0], how, gap)
+                        if key not in first or len(source) < len(first[key][0]):
+                            first[key] = (source, order, v[1])
+            seen_letters |= set(alphabet)
+        fn_line = idx.find_method(cls, 'add_mod')[1].lineno
+        for kind in KINDS:
+            for how in ('listed in text order', 'listed out of text order'):
+                bads = sorted(k for k in first if k[0] == kind and k[1] == how)
+                if not bads:
+                    chk.judge(True, rid, cls.mod.path, '%s.add_mod [%s, entities %s]' % (cls.name, kind, how), 'never', None, fn_line)
+                for k in bads:
+                    bad = first[k]
+                    chk.judge(False, rid, cls.mod.path,
+                              '%s.add_mod [%s, entities %s]' % (cls.name, kind, how),
+                              'happens with the words "%s" between the two entities' % k[2] if k[2] != '' or kind in ('swallows', 'shared-word')
+                              else 'happens',
+                              '%s.add_mod: on the token string %r (xx = an entity, doubled letters = modifier words %s) with the '
+                              'entities listed in order %s: %s - two returned entities overlap or an entity no longer matches its text'
+                              % (cls.name, bad[0], {a: w for a, w in spec['patterns'].items()}, list(bad[1]), bad[2]), fn_line)
+        chk.observe('C12.add-mod: %s.add_mod interpreted on %d (token string, list order) configurations over %s'
+                    % (cls.name, runs, '; '.join('%s up to %d tokens' % (''.join(a), m) for a, m in alphabets)))
+    # positive control: two independent passes, the suffix pass unaware of the neighbour's prefix
+    um = idx.mod('recognizers_text.utilities')
+    ctl = ast.parse(ADDMOD_CONTROL).body[0]
+    spec = {'patterns': {'after_regex': 'a'}, 'config': {}, 'joiner': ' '}
+    cfg = Obj(None, {'after_regex': _stub_pattern('a', ' ')})
+    it = Interp(idx, hooks=_regex_hooks(), where='C12.add-mod control', budget=200000)
+    source = 'xx aa xx'
+    ers = []
+    for s in (0, 6):
+        o = Obj(er_cls, {})
+        o.attrs.update({'start': s, 'length': 2, 'text': 'xx', 'type': date_type, 'data': None, 'meta_data': None})
+        ers.append(o)
+    try:
+        it.call_function(FuncRef(um, ctl, None), [Obj(None, {'config': cfg}), ers, source], {})
+        res = [((s, s + 1), (o.attrs['start'], o.attrs['start'] + o.attrs['length'] - 1), o.attrs['text']) for s, o in zip((0, 6), ers)]
+        v = addmod_verdict(source, res)
+    except PyExc:
+        v = None
+    chk.control(rid, v is not None and v[0] == 'shared-word')
+
+
+_run_before_addmod = run
+
+
+def run(chk):       # noqa: F811
+    _run_before_addmod(chk)
+    rule_add_mod(chk, get_index(), chk.tier if hasattr(chk, 'tier') else 'quick')
